@@ -93,6 +93,43 @@ def _recipe(uid, code, rec):
     return r
 
 
+def install_api_time_limits(seconds):
+    """Every public API call made by a check gets a wall-clock limit: a call that does not return (an encoder loop that no longer terminates) is
+    reported as that call raising TimeoutError - a concrete, replayable failure - instead of hanging the check."""
+    import functools
+    import signal
+    from code_data import CodeData
+    state = {"depth": 0}
+
+    def limited(fn, label):
+        @functools.wraps(fn)
+        def wrapper(*a, **kw):
+            if state["depth"]:
+                return fn(*a, **kw)
+
+            def on_alarm(signum, frame):
+                raise TimeoutError("%s did not return within %d s" % (label, seconds))
+            state["depth"] += 1
+            old = signal.signal(signal.SIGALRM, on_alarm)
+            signal.alarm(seconds)
+            try:
+                return fn(*a, **kw)
+            finally:
+                signal.alarm(0)
+                signal.signal(signal.SIGALRM, old)
+                state["depth"] -= 1
+        return wrapper
+    for name in ("to_code", "normalize", "to_json_data", "all_code_data"):
+        if name in CodeData.__dict__:
+            setattr(CodeData, name, limited(CodeData.__dict__[name], "CodeData." + name))
+    for name in ("from_code", "from_json_data"):
+        raw = CodeData.__dict__.get(name)
+        if isinstance(raw, classmethod):
+            setattr(CodeData, name, classmethod(limited(raw.__func__, "CodeData." + name)))
+        elif isinstance(raw, staticmethod):
+            setattr(CodeData, name, staticmethod(limited(raw.__func__, "CodeData." + name)))
+
+
 def main():
     ap = argparse.ArgumentParser()
     ap.add_argument("--prop", required=True)
@@ -104,6 +141,7 @@ def main():
     a = ap.parse_args()
     t0 = time.time()
     sys.setrecursionlimit(10000)
+    install_api_time_limits(600 if a.tier == "thorough" else 120)
     out = {"python": list(sys.version_info[:3]), "prop": a.prop, "tier": a.tier, "seed": a.seed, "parts": {}}
     try:
         if a.part in ("corpus", "all") and _checks(a.prop):
